@@ -327,6 +327,7 @@ def run(chk):
                                    "what": "in-program conversion differs from the reference engine"})
     # ---- stream 3: formatting methods, reference-only, classified into cells ----
     fvals = [v for v in vals if v[1].replace("-neg", "") in ("halves", "classic decimals", "integer boundary")]
+    fvals += [(0, "zero"), (1 << 63, "zero")]
     fvals += [v for v in vals if v[1].startswith("uniform")][:150] + [v for v in vals if v[1].startswith("random moderate")][:300]
     freprs = [repr(b2f(b)) for b, _ in fvals if ((b >> 52) & 0x7FF) != 0x7FF]
     progs = [("b%d" % k, "", program_b(freprs[k:k + 150])) for k in range(0, len(freprs), 150)]
